@@ -91,25 +91,54 @@ Definition rule_okb (O : oracle) (r : rule) : bool :=
   | _ => true
   end.
 
-Fixpoint holds_steps (db : bool) (ds : str) (ss : list step) (pre : list label) (final : list label) : bool :=
+(* labelmap with the visiting order left unspecified (the documentation does not say which of
+   several labels copied to one target name wins): every name keeps its old value unless some
+   matching label is copied onto it, in which case it carries the value of one of those. *)
+Definition lm_any_order_ok (O : oracle) (r : rule) (pre post : list label) : bool :=
+  let re := r_regex r in
+  let targets := map (fun l => (o_replace_all O re (lname l) (r_repl r), lvalue l))
+                     (filter (fun l => o_match O re (lname l)) pre) in
+  forallb (fun n =>
+             match map snd (filter (fun t => str_eqb (fst t) n) targets) with
+             | [] => str_eqb (lget post n) (lget pre n)
+             | cands => existsb (str_eqb (lget post n)) cands
+             end)
+          (map lname pre ++ map lname post ++ map fst targets).
+
+(* [strict] = labelmap must visit the labels in name order (doc_rule, a deterministic function of
+   the label set); otherwise any order is accepted (doc_rule_rel of C38_refines_doc). *)
+Fixpoint holds_steps (strict : bool) (db : bool) (ds : str) (ss : list step) (pre : list label) (final : list label) : bool :=
   match ss with
   | [] => canonical final && labels_eqb final pre
   | s :: ss' =>
       let O := oracle_of db ds (s_tab s) in
       if rule_okb O (s_rule s) then
         match doc_rule O (s_rule s) pre, s_obs s with
-        | DKeep L', ObsKeep rng => labels_eqb L' (canon rng) && holds_steps db ds ss' (canon rng) final
+        | DKeep L', ObsKeep rng =>
+            (match r_action (s_rule s), strict with
+             | LabelMap, false => canonical (canon rng) && lm_any_order_ok O (s_rule s) pre (canon rng)
+             | _, _ => labels_eqb L' (canon rng)
+             end) && holds_steps strict db ds ss' (canon rng) final
         | DDrop, ObsDrop rng => match ss' with [] => true | _ => false end
         | _, _ => false
         end
       else true   (* outside the property's domain from here on *)
   end.
 
-Definition holds (c : case) : bool :=
+Definition holds_with (strict : bool) (c : case) : bool :=
   if ssorted (c_base c) then
-    holds_steps false [] (c_steps c) (canon (c_base c)) (c_final c)
-    && holds_steps true poison (c_steps c) (canon (c_base c)) (c_final c)
+    holds_steps strict false [] (c_steps c) (canon (c_base c)) (c_final c)
+    && holds_steps strict true poison (c_steps c) (canon (c_base c)) (c_final c)
   else true.
+
+(* The documentation does not say which of several labels that labelmap copies onto one target
+   name wins, so the check accepts any of them ([holds_with false], the statement of theorem
+   C38_refines_doc).  [holds_strict] additionally demands name order, i.e. that the outcome is a
+   function of (label set, rules); it fails exactly on the cases the harness tags with shape
+   "labelmap-collision-order" (theorem C38_labelmap_set_function_refuted) — an observation
+   recorded in notes/C38.md, not a finding. *)
+Definition holds (c : case) : bool := holds_with false c.
+Definition holds_strict (c : case) : bool := holds_with true c.
 
 Definition mismatches (cs : list case) : list Z := map c_id (filter (fun c => negb (agree c)) cs).
 Definition failing_holds (cs : list case) : list Z := map c_id (filter (fun c => negb (holds c)) cs).
